@@ -172,10 +172,11 @@ class SkBaseTransformStacking(SkBaseTransform):
         for k, v in values.items():
             si = k[d:].split("__", 1)
             i = int(si[0])
-            pars[i][k[d + 1 + len(si) :]] = v
+            pars[i][si[1]] = v
         for p, m in zip(pars, self.models):
             if p:
                 m.set_params(**p)
+        return self
 
     #################
     # common methods
